@@ -82,8 +82,11 @@ def smRun (toks : List String) : Option String := do
 /-- RESET-IN-FLIGHT reading (RFC 7540 5.1, "closed"): a frame for a stream that the SERVER has closed by sending
 RST_STREAM may have been sent before the client saw the reset; the server "MUST ignore frames that it receives on
 closed streams after it has sent a RST_STREAM frame" (for a while). The specification run therefore ignores
-HEADERS / RST_STREAM / WINDOW_UPDATE / PRIORITY on such a stream and answers DATA as the code does (stream error
-STREAM_CLOSED); everything else follows the model. -/
+HEADERS / RST_STREAM / WINDOW_UPDATE on such a stream and answers DATA as the code does (stream error
+STREAM_CLOSED); everything else follows the model. PRIORITY is NOT in that list: it is legal in every stream state
+(RFC 7540 5.1 / 6.3), so the model's answer (nothing) already is the in-flight answer, and a PRIORITY frame that makes a
+stream depend on itself is malformed in every state (5.3.1: "MUST treat this as a stream error of type PROTOCOL_ERROR"),
+also on a stream the server has reset. -/
 def smRunSpec (toks : List String) : Option String := do
   let maxs ← (← kv toks "maxstreams").toNat?
   -- (M tokens change the CLIENT's encoder only: no frame, no event, no output slot)
@@ -96,7 +99,7 @@ def smRunSpec (toks : List String) : Option String := do
     | e :: r =>
       -- what a client that is still uploading sends next: the request's trailers (or a reset / window update)
       let inFlight := match e with
-        | .headers sid _ _ (.trailers _) _ | .rst sid | .windowUpdate sid _ | .priority sid _ =>
+        | .headers sid _ _ (.trailers _) _ | .rst sid | .windowUpdate sid _ =>
           resetByServer.contains sid && (findStream c sid).isNone && !(dead c)
         | _ => false
       if inFlight then [] :: go c resetByServer r
